@@ -178,10 +178,10 @@ class Roles:
                                 srcs = {n.id for n in ast.walk(node.value) if isinstance(n, ast.Name)}
                                 if srcs & params:
                                     stored.add(a)
-                if {"u", "yval", "fval", "fsd"} <= stored:
+                if {"yval", "fval", "fsd"} <= stored and stored & {"u", "u_best"}:
                     best = fn
             if best is None:
-                raise AnalysisError("incumbent update method (stores u, yval, fval, fsd from its parameters) not found")
+                raise AnalysisError("incumbent update method (stores the point, yval, fval, fsd from its parameters) not found")
             self._incumbent = best
         return self._incumbent
 
